@@ -24,7 +24,7 @@ from vx import axcheck as _ax
 EXTRA_ENGINES = {'C19': [('kani', _kani.engine)]}
 for _p in _ax.AXIOMS:
     EXTRA_ENGINES.setdefault(_p, []).append(('axcheck', _ax.engine_for(_p)))
-HOOK_COMMITS = []
+HOOK_COMMITS = ['431763a']
 
 META = {
     'C03': {
